@@ -51,7 +51,7 @@ impl Default for Limits {
             max_depth: None,
             max_states: 50_000_000,
             max_wall: Duration::from_secs(3600),
-            max_rss_mib: 40_000,
+            max_rss_mib: 24_000,
         }
     }
 }
